@@ -227,9 +227,11 @@ def main(argv):
         built = {}
         build_s = 0.0
         for p in parts:
-            key = (p["pkg"], bool(p.get("instrument")))
+            key = (p["pkg"], instrument)
             if key not in built:
-                built[key] = build_part(scratch, p, ov, modfile if p.get("instrument") else None)
+                # the overlay is shared by all parts of a check: when one part is instrumented, every part is built
+                # against the rewritten packages and therefore needs the modfile with the shimmed conduit-commons
+                built[key] = build_part(scratch, p, ov, modfile if instrument else None)
                 build_s += built[key][1]
             bins[p["name"]] = built[key][0]
         if build_only:
